@@ -32,6 +32,10 @@ func checkC09(c *Ctx) {
 	}
 	// (g) the path of the diagnostic to the console
 	checkOnParseErrorForm(c, f, "C09.g")
+	// (h) exhaustiveness is judged against the case list stored with the union: no pass between the definition and
+	// the check may drop, add or move a case (ORDER restricted to case lists)
+	r.Rule("C09.h", "the case list of a union is handed on complete and in order by every pass that rebuilds it (element-wise image of the old list): the set exaustiveCheck requires is the set the definition declares", 1)
+	checkListOrderOf(c, "C09.h", f, func(key string) bool { return strings.HasSuffix(key, ".Cases") }, 1)
 	checkRelevantReviewedForms(c, f, "C09.z", "a union-match primitive (the exhaustiveness check, the rule constructors and parsers, case lookup, the match emitter)",
 		primSet("exaustiveCheck", "New_UnionMatchRules_UCaseOnly", "New_UnionMatchRules_UCaseWD", "lookupCase", "utCases", "parseUnionMatchRule", "parseUnionMatchRules", "parseURules", "parseDefaultMatchRule", "isUnionMatchRules", "parseMatchRules", "umrToGoReturn", "umrToCase", "umpToCaseHeader"), 10)
 	c.expectNF(f, "C09.g", "psPanic", []string{"seq[tkzPanic(p0.tkz, p1)]"}, "psPanic hands the message on unchanged")
